@@ -283,7 +283,7 @@ def mode_parallel(ctx, case):
         if isinstance(err, (FileSyncConflict, DocumentSyncConflict)):
             S2, D2 = syncgen.build(ctx, src_spec, "sp"), syncgen.build(ctx, dst_spec, "dp")
             err2 = syncgen.call_sync(D2, S2, opts, [], [], entry="sync_projects", parallel=case["parallel"],
-                                         collect_stats=bool(len(src_spec["jobs"]) % 2))
+                                         collect_stats=bool(len(dst_spec["jobs"]) % 2))
             ctx.monitor("parallel_raises_like_sequential")
             if not isinstance(err2, (FileSyncConflict, DocumentSyncConflict)):
                 ctx.violation("parallel-swallows-conflict", "the sequential sync raised a conflict, the parallel one did not",
@@ -305,7 +305,7 @@ def mode_parallel(ctx, case):
             logger.addHandler(h)
             try:
                 err2 = syncgen.call_sync(D2, S2, opts, [], [], entry="sync_projects", parallel=case["parallel"],
-                                         collect_stats=bool(len(src_spec["jobs"]) % 2))
+                                         collect_stats=bool(len(dst_spec["jobs"]) % 2))
             finally:
                 logger.removeHandler(h)
             ctx.monitor("parallel_equals_sequential")
